@@ -274,7 +274,7 @@ CLAIMED = {
              "bpf(); the map contents are handed to the REAL generated program (reads / writes of hash variables, lookups of present and absent keys with member "
              "reads / writes and Else branch, updates incl. a full map) executed in the Coq ISA model extended with hash-map helper calls, and handed back; "
              "every value and entry must be what the other side stored.",
-        note=TB + "Partial: the hash-map helper calls of the executable model (coq/Corr/C09.v) are validated against the kernel's hash maps only by random helper-call sequences (harness/hash_check.py, every run; an update of an existing key is modelled in place); deletion from the program "
+        note=TB + "Partial: the hash-map helper calls of the executable model (coq/Corr/C09.v) are validated against the kernel's hash maps only by random helper-call sequences (harness/hash_check.py, every run, including pointers kept across an update of the same key); deletion from the program "
              "side and LRU maps are not exercised; no model/implementation correspondence term beyond the oracle (the tie is the exchange of map contents).",
         technique="Coq proof of the table laws + both real sides (Python API on a bpf() stand-in, generated program in the ISA model with hash maps) on shared map contents",
         ref="5/C09"),
